@@ -72,6 +72,19 @@ FAULT_CLASSES = {
 }
 
 
+class _Handle:
+    """An awaitable value (job handle) returned by a generated body."""
+
+    __slots__ = ("name",)
+
+    def __init__(self, name):
+        self.name = name
+
+    def __await__(self):
+        return Label("awaited:" + self.name)
+        yield  # pylint: disable=unreachable
+
+
 class Label:
     """The object a generated body returns (identity is checked at the caller)."""
 
@@ -482,6 +495,9 @@ class Run:
         self.ev("body_exit", None, tx.xid, None)
         if cfg.get("returns") == "none":
             return None
+        if cfg.get("returns") == "handle":
+            # the callable's VALUE is an awaitable (a job handle, a future): it is handed back as it is, not awaited by anybody
+            return _Handle(tx.xid)
         r = Label(tx.xid)
         tx.ret_obj = r
         return r
